@@ -9,6 +9,7 @@ import (
 
 	"github.com/open-policy-agent/opa/v1/ast"
 
+	"github.com/styrainc/regal/internal/parse"
 	"github.com/styrainc/regal/pkg/config"
 )
 
@@ -51,7 +52,13 @@ func (d *DirectoryPackageMismatch) Fix(fc *FixCandidate, opts *RuntimeOptions) (
 }
 
 func getPackagePathDirectory(fc *FixCandidate, config *config.Config) (string, error) {
-	module, err := ast.ParseModule(fc.Filename, fc.Contents)
+	popts := parse.ParserOptions()
+	if fc.RegoVersion != ast.RegoUndefined {
+		popts.RegoVersion = fc.RegoVersion
+	}
+
+	// not all files are Rego v1, parse using the version of the file when known, or else try to find out
+	module, err := parse.ModuleWithOpts(fc.Filename, fc.Contents, popts)
 	if err != nil {
 		return "", err //nolint:wrapcheck
 	}
